@@ -328,6 +328,31 @@ class FrontEnd:
         self.renderer = renderer  # ClassInfo
 
 
+def _binding_sites(corpus: Corpus, fi: FunctionInfo, call: ast.Call, depth: int) -> list[tuple[FunctionInfo, ast.Call]]:
+    """Where the value of ``call`` gets bound to a local name: here (`x = call`), or - when a helper
+    returns it (directly or through a local) - at the helper's call sites, up to two levels."""
+    p = parent(call)
+    if isinstance(p, ast.Assign) and len(p.targets) == 1 and isinstance(p.targets[0], ast.Name):
+        var = p.targets[0].id
+        returned = [n for n in fi.local_nodes() if isinstance(n, ast.Return) and isinstance(n.value, ast.Name) and n.value.id == var]
+        used = any(isinstance(c.func, ast.Attribute) and c.func.attr == "render" and isinstance(c.func.value, ast.Name) and c.func.value.id == var for c in _own_calls(fi))
+        if not returned or used:
+            return [(fi, call)]
+    elif not isinstance(p, ast.Return):
+        raise Unsupported(f"{fi.module.site(call)}: the markdown-it parser is neither bound to a local name nor returned")
+    if depth >= 2:
+        raise Unsupported(f"{fi.module.site(call)}: parser factory nested too deeply")
+    g = get_callgraph(corpus)
+    out: list[tuple[FunctionInfo, ast.Call]] = []
+    for cfi, ccall in g.callers().get(fi.fq, []):
+        if cfi.is_lambda:
+            raise Unsupported(f"{cfi.module.site(ccall)}: parser factory called from a lambda")
+        out += _binding_sites(corpus, cfi, ccall, depth + 1)
+    if not out:
+        raise Unsupported(f"{fi.site()}: {fi.qualname} returns a markdown-it parser but nothing in the package calls it")
+    return out
+
+
 def front_ends(corpus: Corpus) -> tuple[list[FrontEnd], list[tuple[FunctionInfo, ast.Call, str]]]:
     """Functions that call create_md_parser(config, <docutils renderer class>) and then ``.render`` on the result."""
 
@@ -348,18 +373,16 @@ def front_ends(corpus: Corpus) -> tuple[list[FrontEnd], list[tuple[FunctionInfo,
                 if ci is None or ci.fq not in rcls:
                     others.append((fi, call, unparse(r) if r is not None else "?"))
                     continue
-                p = parent(call)
-                if not (isinstance(p, ast.Assign) and len(p.targets) == 1 and isinstance(p.targets[0], ast.Name)):
-                    raise Unsupported(f"{fi.module.site(call)}: result of create_md_parser is not bound to a local name")
-                var = p.targets[0].id
-                renders = [
-                    c
-                    for c in _own_calls(fi)
-                    if isinstance(c.func, ast.Attribute) and c.func.attr == "render" and isinstance(c.func.value, ast.Name) and c.func.value.id == var
-                ]
-                if len(renders) != 1:
-                    raise Unsupported(f"{fi.module.site(call)}: expected exactly one render call on `{var}`, found {len(renders)}")
-                fes.append(FrontEnd(fi, call, renders[0], ci))
+                for hfi, hcall in _binding_sites(corpus, fi, call, 0):
+                    var = parent(hcall).targets[0].id  # type: ignore[union-attr]
+                    renders = [
+                        c
+                        for c in _own_calls(hfi)
+                        if isinstance(c.func, ast.Attribute) and c.func.attr == "render" and isinstance(c.func.value, ast.Name) and c.func.value.id == var
+                    ]
+                    if len(renders) != 1:
+                        raise Unsupported(f"{hfi.module.site(hcall)}: expected exactly one render call on `{var}`, found {len(renders)}")
+                    fes.append(FrontEnd(hfi, call, renders[0], ci))
         return fes, others
 
     return corpus.cache("c20-front-ends", compute)
@@ -367,6 +390,21 @@ def front_ends(corpus: Corpus) -> tuple[list[FrontEnd], list[tuple[FunctionInfo,
 
 # ---------------------------------------------------------------------------
 # R1 the raw filter
+
+
+def _only_parent_test(t: ast.expr, v: str) -> bool:
+    """The test only asks whether ``v.parent`` exists (a detached node cannot reach the output)."""
+    names = [x for x in ast.walk(t) if isinstance(x, ast.Name)]
+    if not names or any(x.id != v for x in names):
+        return False
+    for x in names:
+        px = parent(x)
+        if not (isinstance(px, ast.Attribute) and px.attr == "parent"):
+            return False
+        ppx = parent(px)
+        if isinstance(ppx, ast.Attribute):  # v.parent.something
+            return False
+    return not any(isinstance(x, ast.Call) for x in ast.walk(t))
 
 
 class Filter:
@@ -490,12 +528,13 @@ class Filter:
             f = c.func
             if not isinstance(f, ast.Attribute):
                 continue
-            recv = unparse(f.value)
-            if f.attr == "replace" and recv == f"{v}.parent" and len(c.args) == 2 and unparse(c.args[0]) == v:
-                muts.append((c, "replace", c.args[1]))
-            elif f.attr == "replace_self" and recv == v and len(c.args) == 1:
-                muts.append((c, "replace", c.args[0]))
-            elif f.attr == "remove" and recv in (f"{v}.parent", f"{v}.parent.children") and len(c.args) == 1 and unparse(c.args[0]) == v:
+            recv = unparse(_deref(f.value, fi)) if isinstance(f.value, ast.Name) and f.value.id != v else unparse(f.value)
+            a0, a1 = arg_or_kw(c, 0, "old"), arg_or_kw(c, 1, "new")
+            if f.attr == "replace" and recv == f"{v}.parent" and a0 is not None and a1 is not None and unparse(a0) == v:
+                muts.append((c, "replace", a1))
+            elif f.attr == "replace_self" and recv == v and arg_or_kw(c, 0, "new") is not None:
+                muts.append((c, "replace", arg_or_kw(c, 0, "new")))
+            elif f.attr == "remove" and recv in (f"{v}.parent", f"{v}.parent.children") and (arg_or_kw(c, 0, "item") or arg_or_kw(c, 0, "value")) is not None and unparse(arg_or_kw(c, 0, "item") or arg_or_kw(c, 0, "value")) == v:
                 muts.append((c, "remove", None))
         if not muts:
             raise Unsupported(f"{fi.module.site(lp)}: the raw filter loop neither replaces nor removes `{v}` in a recognised form")
@@ -510,7 +549,10 @@ class Filter:
                             px = parent(x)
                             if isinstance(px, (ast.Subscript, ast.Compare)) or (isinstance(px, ast.Attribute) and px.attr != "parent"):
                                 content_tests.append(n.test)
-            if content_tests:
+            all_tests = [n.test for n in walk_local(lp) if isinstance(n, (ast.If, ast.IfExp))]
+            if not content_tests and all_tests and all(_only_parent_test(t, v) for t in all_tests):
+                self.oks.append(("every-node", f"each raw node that is attached to a parent is replaced/removed (`{short(all_tests[0], 40)}` only skips detached nodes)", muts[0][0]))
+            elif content_tests:
                 self.problems.append(("every-node", f"raw nodes are only replaced depending on `{short(content_tests[0], 60)}`; the others survive with raw disabled", content_tests[0]))
             else:
                 raise Unsupported(f"{fi.module.site(muts[0][0])}: the replacement of `{v}` is conditional in a way the rule does not understand")
@@ -564,23 +606,30 @@ def _unconditional_filter(fi: FunctionInfo, after=None) -> ast.If | None:
     cfg = get_cfg(fi)
     start = after if after is not None else "ENTRY"
     for ifn in _filters_in(fi):
-        if ifn is not start and cfg.postdominates(ifn, start):
+        outer = ifn
+        # `if hasattr(X.settings, "raw_enabled"): if not X.settings.raw_enabled: ...` is the getattr-with-default form, split
+        while True:
+            p = parent(outer)
+            if isinstance(p, ast.If) and outer in p.body and not p.orelse and isinstance(p.test, ast.Call) and dotted(p.test.func) == "hasattr" and len(p.test.args) == 2 and is_const(p.test.args[1], "raw_enabled"):
+                outer = p
+            else:
+                break
+        if outer is not start and ifn is not start and cfg.postdominates(outer, start):
             return ifn
     return None
 
 
-def locate_filter(corpus: Corpus, fe: FrontEnd):
-    """Where the filter that covers this front end lives: (function, if-node, how) or (None, reason, partial-if)."""
+def _filter_after(corpus: Corpus, fi: FunctionInfo, s, depth: int = 0):
+    """A raw filter on every path from statement ``s`` of ``fi`` to the normal exit: in ``fi`` itself, in a
+    helper that a later statement always calls, or - when ``fi`` is itself a helper - after every call of
+    ``fi`` in its callers.  -> (function holding the filter, if-node, how, host function, host statement) | None"""
     g = get_callgraph(corpus)
-    fi = fe.fi
     cfg = get_cfg(fi)
-    s = cfg.stmt_of(fe.render_call)
     if s not in cfg.pdom():
         raise Unsupported(f"{fi.module.site(s)}: the render call cannot reach the normal exit")
     ifn = _unconditional_filter(fi, s)
     if ifn is not None:
-        return fi, ifn, "in the entry, after the render call"
-    # one level of helper: a statement after the render call, on every path, calling a function that always filters
+        return fi, ifn, f"in {fi.qualname}, after the render call", fi, ifn
     for st in cfg.nodes:
         if not isinstance(st, ast.stmt) or st is s or isinstance(st, (ast.If, ast.For, ast.While, ast.Try, ast.With, ast.FunctionDef)):
             continue
@@ -592,7 +641,30 @@ def locate_filter(corpus: Corpus, fe: FrontEnd):
                     continue
                 inner = _unconditional_filter(t)
                 if inner is not None:
-                    return t, inner, f"in {t.qualname}, called after the render call"
+                    return t, inner, f"in {t.qualname}, called by {fi.qualname} after the render call", fi, s
+    if depth < 2:
+        callers = [(cfi, c) for cfi, c in g.callers().get(fi.fq, []) if cfi.fq != fi.fq]
+        if callers and not any(cfi.is_lambda for cfi, _ in callers):
+            found = []
+            for cfi, c in callers:
+                r = _filter_after(corpus, cfi, get_cfg(cfi).stmt_of(c), depth + 1)
+                if r is None:
+                    return None
+                found.append(r)
+            return found[0]
+    return None
+
+
+def locate_filter(corpus: Corpus, fe: FrontEnd):
+    """Where the filter that covers this front end lives: (function, if-node, how, host, host stmt) or
+    (None, reason, partial-if, host, host stmt)."""
+    g = get_callgraph(corpus)
+    fi = fe.fi
+    cfg = get_cfg(fi)
+    s = cfg.stmt_of(fe.render_call)
+    r = _filter_after(corpus, fi, s)
+    if r is not None:
+        return r
     # inside the renderer: after the tokens were rendered, in render() or a helper it always calls
     rm = corpus.lookup_method(fe.renderer, "render")
     if rm is not None:
@@ -602,7 +674,7 @@ def locate_filter(corpus: Corpus, fe: FrontEnd):
             rs = rcfg.stmt_of(rts[0])
             inner = _unconditional_filter(rm, rs)
             if inner is not None:
-                return rm, inner, f"in {rm.qualname}, after _render_tokens"
+                return rm, inner, f"in {rm.qualname}, after _render_tokens", fi, s
             for st in rcfg.nodes:
                 if isinstance(st, ast.stmt) and st is not rs and not isinstance(st, (ast.If, ast.For, ast.While, ast.Try, ast.With)) and rcfg.postdominates(st, rs):
                     for c in calls_in(st, into_lambdas=False):
@@ -611,11 +683,11 @@ def locate_filter(corpus: Corpus, fe: FrontEnd):
                                 continue
                             inner = _unconditional_filter(t)
                             if inner is not None:
-                                return t, inner, f"in {t.qualname}, called by {rm.qualname} after _render_tokens"
+                                return t, inner, f"in {t.qualname}, called by {rm.qualname} after _render_tokens", fi, s
     partial = _filters_in(fi)
     if partial:
-        return None, "a raw_enabled test exists in the entry but some path from the render call to the normal exit does not pass it", partial[0]
-    return None, "no raw_enabled filter follows the render call (neither in the entry, in a helper it always calls afterwards, nor at the end of the renderer's render())", None
+        return None, "a raw_enabled test exists in the entry but some path from the render call to the normal exit does not pass it", partial[0], fi, s
+    return None, "no raw_enabled filter follows the render call (neither in the function, in a helper it always calls afterwards, after the call in its callers, nor at the end of the renderer's render())", None, fi, s
 
 
 @rule("C20.R1")
@@ -632,7 +704,7 @@ def r1_filter_postdominates(corpus: Corpus, rep: Report, tier: str):
         rep.saw_function(fi.fq)
         rep.saw_call(fi.module.site(fe.render_call))
         k = f"{fi.fq}|raw filter after {short(fe.render_call, 40)}"
-        where, ifn, how = locate_filter(corpus, fe)
+        where, ifn, how, _host, _hst = locate_filter(corpus, fe)
         if where is None:
             reason, partial = ifn, how
             site = fi.module.site(partial if partial is not None else fe.render_call)
@@ -652,8 +724,7 @@ def r1_filter_postdominates(corpus: Corpus, rep: Report, tier: str):
         analysed[ident] = flt
         rep.saw_function(where.fq)
         # the document filtered must be the one rendered into
-        if where.fq == fi.fq:
-            _check_same_document(rep, fe, flt)
+        _check_same_document(rep, fe, flt)
         for aspect, msg, node in flt.oks:
             rep.ok("C20.R1", f"{where.fq}|raw filter|{aspect}", where.module.site(node), msg)
         for aspect, msg, node in flt.problems:
@@ -667,19 +738,30 @@ def _check_same_document(rep: Report, fe: FrontEnd, flt: Filter) -> None:
     """The filtered document is the one handed to the renderer (parser.options['document'] = <doc>)."""
     fi = fe.fi
     var = fe.render_call.func.value.id  # type: ignore[union-attr]
-    given = None
+    given = None  # (node, value expr)
     for n in fi.local_nodes():
         if isinstance(n, ast.Assign) and len(n.targets) == 1:
             t = n.targets[0]
             if isinstance(t, ast.Subscript) and unparse(t.value) == f"{var}.options" and is_const(t.slice, "document"):
-                given = n
+                given = (n, n.value)
+        elif isinstance(n, ast.Call) and isinstance(n.func, ast.Attribute) and n.func.attr == "update" and unparse(n.func.value) == f"{var}.options":
+            v = kwarg(n, "document")
+            if v is None and n.args and isinstance(n.args[0], ast.Dict):
+                for kk, vv in zip(n.args[0].keys, n.args[0].values):
+                    if is_const(kk, "document"):
+                        v = vv
+            if v is not None:
+                given = (n, v)
     k = f"{fi.fq}|raw filter|same document as rendered"
-    if given is None:
-        raise Unsupported(f"{fi.site()}: no `{var}.options['document'] = ...` store found")
-    if unparse(_deref(given.value, fi)) == flt.root:
-        rep.ok("C20.R1", k, fi.module.site(given), f"{var}.options['document'] is {flt.root}")
+    if given is None or flt.fi.fq != fi.fq:
+        # the store or the filter lives in a helper: the pairing is not established here (evidence only)
+        rep.listed("C20.R1", k, fi.site(), "document handed to the renderer and document filtered live in different functions: pairing not checked")
+        return
+    node, value = given
+    if unparse(_deref(value, fi)) == flt.root:
+        rep.ok("C20.R1", k, fi.module.site(node), f"{var}.options['document'] is {flt.root}")
     else:
-        rep.violation("C20.R1", k, fi.module.site(given), f"the renderer writes into `{short(given.value, 40)}` but the raw filter walks `{flt.root}`")
+        rep.violation("C20.R1", k, fi.module.site(node), f"the renderer writes into `{short(value, 40)}` but the raw filter walks `{flt.root}`")
 
 
 # ---------------------------------------------------------------------------
@@ -702,8 +784,12 @@ def _transform_entries(corpus: Corpus) -> tuple[list[tuple[FunctionInfo, str]], 
         if fi.is_lambda:
             continue
         if fi.name == "get_transforms":
+            seqs = [n for n in fi.local_nodes() if isinstance(n, (ast.List, ast.Tuple))]
             for n in fi.local_nodes():
-                if isinstance(n, ast.List):
+                if isinstance(n, ast.Name) and n.id in fi.module.const_nodes and isinstance(fi.module.const_nodes[n.id], (ast.List, ast.Tuple)):
+                    seqs.append(fi.module.const_nodes[n.id])
+            for n in seqs:
+                if True:
                     for e in n.elts:
                         ci = corpus.find_class(fi.module.resolve(dotted(e) or ""))
                         if ci is not None:
@@ -755,18 +841,15 @@ def r2_no_late_raw(corpus: Corpus, rep: Report, tier: str):
         rep.listed("C20.R2", f"{ent.fq}|transform entry", ent.site(), why)
     if len(late) < 4:
         rep.error("C20.R2", f"expected the footnote/anchor transforms, found {len(late)} transform entry point(s)")
-    tail_stmts: list[tuple[FrontEnd, ast.stmt]] = []
+    tail_stmts: list[tuple[FunctionInfo, ast.stmt]] = []
     for fe in fes:
-        fi = fe.fi
-        cfg = get_cfg(fi)
-        s = cfg.stmt_of(fe.render_call)
-        flt = _unconditional_filter(fi, s)
-        start = flt if flt is not None else s
-        for st in cfg.reachable_from(start):
-            if isinstance(st, ast.stmt) and st is not start and st is not s:
-                tail_stmts.append((fe, st))
-    for fe, st in tail_stmts:
-        fi = fe.fi
+        where, ifn, _how, host, hst = locate_filter(corpus, fe)
+        cfg = get_cfg(host)
+        s0 = cfg.stmt_of(fe.render_call) if host.fq == fe.fi.fq else None
+        for st in cfg.reachable_from(hst):
+            if isinstance(st, ast.stmt) and st is not hst and st is not s0:
+                tail_stmts.append((host, st))
+    for fi, st in tail_stmts:
         own = [st] if not isinstance(st, (ast.If, ast.For, ast.While, ast.Try, ast.With)) else _headers(st)
         for part in own:
             for c in calls_in(part, into_lambdas=False):
@@ -906,12 +989,33 @@ def _all_callers_guarded(corpus: Corpus, f: FunctionInfo, depth: int = 2) -> boo
     return True
 
 
-def _refusal_if(fi: FunctionInfo, ifn: ast.If) -> ast.expr | None:
-    """The setting read when ``ifn`` is `if not <file_insertion_enabled>: ...raise`, else None."""
+def _refusal_branch(fi: FunctionInfo, ifn: ast.If):
+    """(setting read, statements executed when file insertion is disabled, edge taken when it is enabled)
+    for `if not <switch>: REFUSE`, `if <switch>: ... else: REFUSE` and `if <switch>: ...return` + REFUSE after
+    the if; None when the test is not a single truth test of the switch."""
     atoms = _facts(ifn.test, True)
-    if len(atoms) == 1 and not atoms[0][1] and _setting_root(atoms[0][0], "file_insertion_enabled", fi) is not None:
-        if ifn.body and isinstance(ifn.body[-1], ast.Raise):
-            return atoms[0][0]
+    if len(atoms) != 1 or _setting_root(atoms[0][0], "file_insertion_enabled", fi) is None:
+        return None
+    e, pol = atoms[0]
+    if not pol:
+        return e, ifn.body, ("F", ifn)
+    if ifn.orelse:
+        return e, ifn.orelse, ("T", ifn)
+    p = parent(ifn)
+    for fld in ("body", "orelse", "finalbody"):
+        blk = getattr(p, fld, None)
+        if isinstance(blk, list) and ifn in blk:
+            rest = blk[blk.index(ifn) + 1 :]
+            if rest and ifn.body and isinstance(ifn.body[-1], (ast.Return, ast.Raise)):
+                return e, rest, ("T", ifn)
+    return None
+
+
+def _refusal_if(fi: FunctionInfo, ifn: ast.If):
+    """The edge on which file insertion is known to be enabled, when ``ifn`` refuses by raising otherwise."""
+    rb = _refusal_branch(fi, ifn)
+    if rb is not None and rb[1] and isinstance(rb[1][-1], ast.Raise):
+        return rb[2]
     return None
 
 
@@ -944,7 +1048,7 @@ def _insertion_guard_facts(corpus: Corpus, fi: FunctionInfo, st) -> list[str]:
                 _check_guard_forms(t)
                 tcfg = get_cfg(t)
                 for ifn in t.local_nodes():
-                    if isinstance(ifn, ast.If) and _refusal_if(t, ifn) is not None and ("F", ifn) in tcfg.pdom().get("ENTRY", set()):
+                    if isinstance(ifn, ast.If) and _refusal_if(t, ifn) is not None and _refusal_if(t, ifn) in tcfg.pdom().get("ENTRY", set()):
                         out.append(f"{t.qualname}() raises unless file insertion is enabled")
     return out
 
@@ -991,12 +1095,12 @@ def _judge_refusal(rep: Report, fi: FunctionInfo, ifn: ast.If) -> bool:
     if ident:
         rep.violation("C20.R3", f"{fi.fq}|refusal when file insertion is disabled", fi.module.site(ident[0]), f"`{short(ident[0], 60)}` is an identity test: file_insertion_enabled = 0 (a legal 'off' value; docutils' own defaults for the switches are the ints 1/0) is not `False`, so the directive goes on to read the file")
         return False
-    atoms = _facts(ifn.test, True)
-    if len(atoms) != 1 or _setting_root(atoms[0][0], "file_insertion_enabled", fi) is None or atoms[0][1]:
+    rb = _refusal_branch(fi, ifn)
+    if rb is None:
         return False  # a weaker/other test establishes nothing: the reads below are then judged unguarded
-    root = unparse(_setting_root(atoms[0][0], "file_insertion_enabled", fi))
+    root = unparse(_setting_root(rb[0], "file_insertion_enabled", fi))
     k = f"{fi.fq}|refusal when file insertion is disabled"
-    last = ifn.body[-1] if ifn.body else None
+    last = rb[1][-1] if rb[1] else None
     if isinstance(last, ast.Return):
         msgs = [c for c in calls_in(last, into_lambdas=False) if isinstance(c.func, ast.Attribute) and unparse(c.func.value).endswith("reporter")]
         if len(msgs) == 1 and msgs[0].func.attr == "warning":  # type: ignore[union-attr]
@@ -1013,7 +1117,17 @@ def _judge_refusal(rep: Report, fi: FunctionInfo, ifn: ast.If) -> bool:
             rep.ok("C20.R3", k, fi.module.site(last), f"raise {short(exc, 60)} (docutils Directive.warning)")
             return True
         raise Unsupported(f"{fi.module.site(last)}: refusal raises `{short(exc, 50)}`, not DirectiveError")
-    lvl = arg_or_kw(exc, 0, "level")
+    lvl = _deref(arg_or_kw(exc, 0, "level"), fi)
+    if isinstance(lvl, (ast.Name, ast.Attribute)):
+        try:
+            d_ = dotted(lvl) or ""
+            val = fi.module.const(d_) if d_ in fi.module.const_nodes else None
+            if val is None and isinstance(lvl, ast.Attribute) and lvl.attr in ("WARNING_LEVEL", "WARNING") :
+                val = 2
+            if isinstance(val, int):
+                lvl = ast.Constant(value=val)
+        except (Unsupported, AnchorMissing):
+            pass
     if not (isinstance(lvl, ast.Constant) and isinstance(lvl.value, int)):
         raise Unsupported(f"{fi.module.site(last)}: DirectiveError level `{short(lvl, 30) if lvl is not None else '?'}` is not an integer literal")
     if root not in ("self.document", "self.renderer.document", "self.state.document"):
@@ -1167,54 +1281,83 @@ def _ancestors_local(n: ast.AST):
 DOC_CTORS = ("make_document", "new_document", "document")
 
 
+def _judge_nested_document(corpus: Corpus, rep: Report, rr: FunctionInfo, pc: ast.Call, darg: ast.expr | None, k: str, depth: int) -> None:
+    """The document passed at ``pc`` (a call in ``rr``) must carry the outer settings when the call runs.
+    A document that is a parameter of ``rr`` is followed to the call sites of ``rr``."""
+    g = get_callgraph(corpus)
+    cfg = get_cfg(rr)
+    if not isinstance(darg, ast.Name):
+        raise Unsupported(f"{rr.module.site(pc)}: document argument `{short(darg, 30) if darg is not None else '?'}` is not a local name")
+    dn = darg.id
+    pst = cfg.stmt_of(pc)
+    stores = [n for n in rr.local_nodes() if isinstance(n, ast.Assign) and any(unparse(t) == f"{dn}.settings" for t in n.targets)]
+    if dn in rr.params and not any(cfg.dominates(st_, pst) for st_ in stores):
+        # the nested document is made by the caller
+        callers = [(cf, cc) for cf, cc in g.callers().get(rr.fq, []) if cf.fq != rr.fq]
+        if depth >= 2 or not callers or any(cf.is_lambda for cf, _ in callers):
+            raise Unsupported(f"{rr.module.site(pc)}: the nested document `{dn}` is a parameter whose origin cannot be followed")
+        idx = rr.params.index(dn) - (1 if rr.cls is not None and rr.params and rr.params[0] in ("self", "cls") else 0)
+        for cf, cc in callers:
+            _judge_nested_document(corpus, rep, cf, cc, arg_or_kw(cc, idx, dn), k, depth + 1)
+        return
+    created = _deref(darg, rr)
+    via_ctor = isinstance(created, ast.Call) and any(_settings_kind(a, rr) == "outer" for a in list(created.args) + [kw.value for kw in created.keywords])
+    kinds = [(st_, _settings_kind(st_.value, rr)) for st_ in stores]
+    good = [st_ for st_, kd in kinds if kd == "outer"]
+    fresh = [st_ for st_, kd in kinds if kd == "fresh"]
+    unknown = [st_ for st_, kd in kinds if kd == "unknown"]
+    if fresh:
+        rep.violation("C20.R4", k, rr.module.site(fresh[0]), f"`{short(fresh[0], 60)}`: the nested rST document gets newly created default settings, so raw_enabled/file_insertion_enabled of the build are not seen by rST directives inside eval-rst")
+    elif unknown:
+        raise Unsupported(f"{rr.module.site(unknown[0])}: cannot tell where `{short(unknown[0].value, 50)}` comes from")
+    elif via_ctor or any(cfg.dominates(st_, pst) for st_ in good):
+        rep.ok("C20.R4", k, rr.module.site(good[0] if good else created), "settings object (or a copy of it) shared before the nested parse")
+    elif good:
+        rep.violation("C20.R4", k, rr.module.site(good[0]), "the settings are shared only after (or not on every path before) the nested rST parse has run")
+    else:
+        # the document may come ready-made from a helper that shares the settings itself
+        if isinstance(created, ast.Call):
+            for t in g.flat_targets(g.resolve_call(created, rr)):
+                if not t.is_lambda and any(isinstance(n, ast.Assign) and any(isinstance(x, ast.Attribute) and x.attr == "settings" for x in n.targets) and _settings_kind(n.value, t) == "outer" for n in t.local_nodes()):
+                    rep.ok("C20.R4", k, rr.module.site(created), f"{t.qualname}() returns the nested document with the outer settings attached")
+                    return
+        # no store of a settings object: is the fresh settings object filled from the outer one, and how?
+        verdict = _fill_verdict(rr, dn, pst, cfg)
+        if verdict is None:
+            rep.violation("C20.R4", k, rr.module.site(pc), f"the nested rST parser runs on `{dn}` with freshly created default settings (raw and file insertion enabled): `.. include::`, `.. raw:: :file:` and `.. csv-table:: :file:` inside eval-rst read files although file insertion is disabled")
+        elif verdict[0] == "ok":
+            rep.ok("C20.R4", k, rr.module.site(verdict[2]), verdict[1])
+        else:
+            rep.violation("C20.R4", k, rr.module.site(verdict[2]), verdict[1])
+
+
 @rule("C20.R4")
 def r4_shared_settings_real_documents(corpus: Corpus, rep: Report, tier: str):
     rep.rule("C20.R4", "the nested rST parse runs on a document carrying the outer document's settings object; every mock exposes the renderer's real document")
     g = get_callgraph(corpus)
-    # (a) eval-rst
-    rr = corpus.func("mdit_to_docutils.base:DocutilsRenderer.render_restructuredtext")
-    rep.saw_function(rr.fq)
-    cfg = get_cfg(rr)
+    # (a) eval-rst: every place that runs the rST parser on a nested document
     mock_parse = corpus.func("mocking:MockRSTParser.parse")
-    pcalls = []
-    for c in _own_calls(rr):
-        ts = g.resolve_call(c, rr)
-        flat = g.flat_targets(ts)
-        if any(t.fq == mock_parse.fq for t in flat) or (isinstance(c.func, ast.Attribute) and c.func.attr == "parse" and any(isinstance(t, (External, Unresolved)) for t in ts) and len(c.args) == 2):
-            pcalls.append(c)
-    if not pcalls:
-        raise Unsupported(f"{rr.site()}: no nested rST parser call found in render_restructuredtext")
-    for pc in pcalls:
-        darg = arg_or_kw(pc, 1, "document")
-        k = f"{rr.fq}|settings of the document given to {short(pc.func, 40)}"
-        if not isinstance(darg, ast.Name):
-            raise Unsupported(f"{rr.module.site(pc)}: document argument `{short(darg, 30) if darg is not None else '?'}` is not a local name")
-        dn = darg.id
-        pst = cfg.stmt_of(pc)
-        stores = [n for n in rr.local_nodes() if isinstance(n, ast.Assign) and any(unparse(t) == f"{dn}.settings" for t in n.targets)]
-        created = _deref(darg, rr)
-        via_ctor = isinstance(created, ast.Call) and any(_settings_kind(a, rr) == "outer" for a in list(created.args) + [kw.value for kw in created.keywords])
-        kinds = [(st_, _settings_kind(st_.value, rr)) for st_ in stores]
-        good = [st_ for st_, kd in kinds if kd == "outer"]
-        fresh = [st_ for st_, kd in kinds if kd == "fresh"]
-        unknown = [st_ for st_, kd in kinds if kd == "unknown"]
-        if fresh:
-            rep.violation("C20.R4", k, rr.module.site(fresh[0]), f"`{short(fresh[0], 60)}`: the nested rST document gets newly created default settings, so raw_enabled/file_insertion_enabled of the build are not seen by rST directives inside eval-rst")
-        elif unknown:
-            raise Unsupported(f"{rr.module.site(unknown[0])}: cannot tell where `{short(unknown[0].value, 50)}` comes from")
-        elif via_ctor or any(cfg.dominates(st_, pst) for st_ in good):
-            rep.ok("C20.R4", k, rr.module.site(good[0] if good else created), "settings object (or a copy of it) shared before the nested parse")
-        elif good:
-            rep.violation("C20.R4", k, rr.module.site(good[0]), "the settings are shared only after (or not on every path before) the nested rST parse has run")
-        else:
-            # no store of a settings object: is the fresh settings object filled from the outer one, and how?
-            verdict = _fill_verdict(rr, dn, pst, cfg)
-            if verdict is None:
-                rep.violation("C20.R4", k, rr.module.site(pc), f"the nested rST parser runs on `{dn}` with freshly created default settings (raw and file insertion enabled): `.. include::`, `.. raw:: :file:` and `.. csv-table:: :file:` inside eval-rst read files although file insertion is disabled")
-            elif verdict[0] == "ok":
-                rep.ok("C20.R4", k, rr.module.site(verdict[2]), verdict[1])
-            else:
-                rep.violation("C20.R4", k, rr.module.site(verdict[2]), verdict[1])
+    sites: list[tuple[FunctionInfo, ast.Call]] = []
+    for f in corpus.all_functions():
+        if f.is_lambda or f.fq == mock_parse.fq:
+            continue
+        for c in _own_calls(f):
+            if not (isinstance(c.func, ast.Attribute) and c.func.attr == "parse"):
+                continue
+            ts = g.resolve_call(c, f)
+            hit = any(t.fq == mock_parse.fq for t in g.flat_targets(ts))
+            if not hit:
+                recv = _deref(c.func.value, f)
+                rc = dotted(recv.func) if isinstance(recv, ast.Call) else None
+                full = f.module.resolve(rc) if rc else ""
+                hit = full.endswith(".MockRSTParser") or full in ("docutils.parsers.rst.Parser", "docutils.parsers.rst.Parser.Parser")
+            if hit:
+                sites.append((f, c))
+    if not sites:
+        raise Unsupported("no call of the nested rST parser (MockRSTParser().parse) found in the package")
+    for f, pc in sites:
+        rep.saw_function(f.fq)
+        _judge_nested_document(corpus, rep, f, pc, arg_or_kw(pc, 1, "document"), f"{f.fq}|settings of the document given to {short(pc.func, 40)}", 0)
     # MockRSTParser.parse hands the same document on
     sup = [c for c in _own_calls(mock_parse) if (dotted(c.func) or "").startswith("super().") and c.func.attr == "parse"]  # type: ignore[union-attr]
     k = f"{mock_parse.fq}|passes its document to the rST parser"
@@ -1287,9 +1430,18 @@ def r4_shared_settings_real_documents(corpus: Corpus, rep: Report, tier: str):
     rep.expect_min("C20.R4", 8, "eval-rst settings, MockRSTParser pass-through, >= 4 mock documents, mock constructions")
 
 
+def _outer_texts(fi: FunctionInfo) -> set[str]:
+    out = {"self.document.settings", "self.renderer.document.settings", "self._renderer.document.settings"}
+    for p_ in fi.params:
+        if p_ not in ("self", "cls"):
+            out.add(f"{p_}.settings")
+            out.add(f"{p_}.document.settings")
+    return out
+
+
 def _is_outer_settings(e: ast.expr | None, fi: FunctionInfo) -> bool:
     e = _deref(e, fi)
-    return e is not None and unparse(e) == "self.document.settings"
+    return e is not None and unparse(e) in _outer_texts(fi)
 
 
 FRESH_SETTINGS = ("make_document", "new_document", "get_default_settings", "get_default_values", "OptionParser", "Values")
@@ -1300,7 +1452,7 @@ def _settings_kind(e: ast.expr | None, fi: FunctionInfo) -> str:
     e = _deref(e, fi)
     if e is None:
         return "unknown"
-    if unparse(e) == "self.document.settings":
+    if unparse(e) in _outer_texts(fi):
         return "outer"
     if isinstance(e, ast.Call):
         d = dotted(e.func) or ""
@@ -1328,7 +1480,7 @@ def _fill_verdict(fi: FunctionInfo, dn: str, pst, cfg):
             sw = n.targets[0].attr
             if sw in ("raw_enabled", "file_insertion_enabled") and cfg.dominates(n, pst):
                 r = _setting_root(n.value, sw, fi)
-                if r is not None and unparse(r) == "self.document":
+                if r is not None and f"{unparse(r)}.settings" in _outer_texts(fi):
                     copied[sw] = n
     if len(copied) == 2:
         found = ("ok", "both switches are copied from the outer document's settings before the nested parse", copied["file_insertion_enabled"])
@@ -1343,7 +1495,7 @@ def _fill_verdict(fi: FunctionInfo, dn: str, pst, cfg):
         if not touches:
             continue
         ctx = unparse(_outermost_stmt_in(fi, c))
-        from_outer = "self.document.settings" in ctx
+        from_outer = any(t in ctx for t in _outer_texts(fi))
         if isinstance(f, ast.Attribute) and f.attr == "setdefault":
             return ("bad", f"`{short(c, 60)}` only fills settings that `{dn}` lacks: raw_enabled and file_insertion_enabled have defaults (both on) in the fresh rST settings, so the build's values never arrive and file-reading directives inside eval-rst run although file insertion is disabled", c)
         if from_outer and ((dotted(f) == "setattr") or (isinstance(f, ast.Attribute) and f.attr in ("update", "__setattr__", "_update_loose"))):
